@@ -60,6 +60,7 @@ func init() {
 		)
 		run.NotDecided = append(run.NotDecided,
 			"inversion and square roots: the exponentiation chains are decided in the exponent domain (EXP-chain: Invert = t^(p-2), pow_p58 = t^((p-5)/8), the candidate tests of SqrtRatioI), given the decided primitives; multiplication/squaring/Pow2k/Mul121666/Add/Sub/Neg written in Go ARE decided functionally by E-LIN (result ≡ product mod p coefficient-wise in the monomials a_i·b_j); the induction over k in Pow2k is argued from the one-iteration check",
+			"in-place use where BOTH aliased operands are written (ConstantTimeSwapUint64/32 of a word with itself, ConditionalSwap(a, a)): ALIAS compares pairs of which one is written; no library code swaps an element with itself",
 			"the AVX2 vector assembly (curve/edwards_vector_amd64.s): no model; stage B (element-level bounds at the call sites) is not run in the amd64 configuration. The integer assembly feMul / fePow2k IS decided: its text is interpreted instruction by instruction (MOVQ, MULQ, IMUL3Q, ADDQ/ADCQ with the carry flag, SHLQ/SHRQ incl. the double-word forms, ANDQ, DECQ/JNZ) in the E-LIN monomial domain, with the same obligations as feMulGeneric / fePow2kGeneric (value mod p coefficient-wise, no register wraps under limbs < 2^54, outputs weakly reduced, the k-loop inductively); an instruction outside that set leaves it undecided (= failure)",
 			"the last step of ToBytes's canonicalisation argument (discarded carry = quotient) is a stated two-case argument from decided facts, not mechanised; that the bias constants of Sub/Neg are a multiple of p (E-CONST)",
 			"curve/scalar: the 64-bit back end is analysed by erange.CheckScalar64 under property C05; the 32-bit scalar back end wraps on purpose (Karatsuba) and is out of reach of intervals",
